@@ -129,7 +129,12 @@ func (SlidingWindow) New(cfg Config) fiber.Handler {
 				e.prevHits--
 			}
 			remaining++
-			manager.set(key, e, cfg.Expiration)
+			// Keep the entry until the end of the next window, as above
+			ttl := uint64(1)
+			if now := uint64(utils.Timestamp()); e.exp+expiration > now {
+				ttl = e.exp + expiration - now
+			}
+			manager.set(key, e, time.Duration(ttl)*time.Second) //nolint:gosec // Not a concern
 			// Unlock entry
 			mux.Unlock()
 		}
